@@ -491,13 +491,19 @@ def r8_wait_wake(cx):
             n += 1
             if ws is not None:
                 waits_quantified.append(f.short)
-                ended = ws["done"]({"ended": True, "hook": False, "beneath": True}) == {True} and ws["done"]({"ended": True, "hook": True, "beneath": True}) == {True}
+                from rules.common import wait_combos
+                waited, left = wait_combos(ws)
+                allc = waited + left
+
+                def _d(base, combos=allc):
+                    return all(ws["done"](dict(base, **cmb)) == {True} for cmb in combos)
+                ended = _d({"ended": True, "hook": False, "beneath": True}) and _d({"ended": True, "hook": True, "beneath": True})
                 cx.ob("C01.R8", "ended-not-waited:%s" % f.short, ended, "`%s`: a task that has ended does not hold the completion back (%s)" % (f.short, ws["how"]), c.loc)
-                hook = (not sup) or ws["done"]({"ended": False, "hook": True, "beneath": True}) == {True}
+                hook = (not sup) or _d({"ended": False, "hook": True, "beneath": True})
                 cx.ob("C01.R8", "waits-for-hook:%s" % f.short, hook,
                       "`%s`: an open hook act does not hold the completion back (it would never report back) (%s)" % (f.short, ws["how"]), c.loc)
                 if ws["domain"] == "process":
-                    far = ws["done"]({"ended": False, "hook": False, "beneath": False}) == {True}
+                    far = _d({"ended": False, "hook": False, "beneath": False})
                     cx.ob("C01.R8", "beneath-only:%s" % f.short, far,
                           "`%s`: of all tasks of the process only those directly beneath the task are waited for (a deeper task reports to its own parent, a task of an abandoned round to nobody) (%s)" % (f.short, ws["how"]), c.loc)
                 continue
